@@ -8,6 +8,8 @@ import Driver.L2
 import Driver.UriId
 import Driver.Codec
 import Driver.Auth
+import Driver.Client
+import Driver.Frame
 
 def main (args : List String) : IO UInt32 := do
   match args with
@@ -16,5 +18,7 @@ def main (args : List String) : IO UInt32 := do
   | "uriid" :: rest => Driver.UriId.run rest
   | "codec" :: rest => Driver.Codec.run rest
   | "auth" :: rest => Driver.Auth.run rest
+  | "client" :: rest => Driver.Client.run rest
+  | "frame" :: rest => Driver.Frame.run rest
   | m :: _ => do IO.eprintln s!"nexus-driver: unknown mode {m}"; return 2
   | [] => do IO.eprintln "usage: nexus-driver <mode> [args]"; return 2
